@@ -105,9 +105,7 @@ Lemma N_eqb_refl' n : (n =? n) = true. Proof. apply N.eqb_refl. Qed.
 Theorem C04_ok_gen m src inc o out_ :
   wf m = true -> gen m src inc o = Ok out_ -> C04_ok m out_ = true.
 Proof.
-  unfold wf. intros Hwf Hgen.
-  apply andb_true_iff in Hwf as [Hwf Hnames]. apply andb_true_iff in Hwf as [Hwf _].
-  apply andb_true_iff in Hwf as [Htypes _].
+  intros Hwf Hgen. destruct (wf_proj m Hwf) as (Htypes & _ & _ & Hnames & _).
   destruct (gen_inv _ _ _ _ _ Hgen) as [bgd pc Hbgd _ _ Hbgm _ _ _ _ _ _ _ _ _ _ Hpl _ _].
   destruct (gbd_ok_content m Htypes bgd Hbgd) as (Hkeys & Hsorted & Hfind).
   unfold bind_groups_module in Hbgm. apply rbind_ok in Hbgm as (ogs & Hogs & Hbgm).
